@@ -67,8 +67,7 @@ func c08(c *Ctx) {
 
 	// ---- outflow arithmetic ---------------------------------------------------
 	retLE(c, avail, 0, "$r.n")
-	c.HasBranch(avail, "$r.conn.n < $r.n")
-	c.Has(avail, RetTerm(0, "φ($r.conn.n|$r.n)"))
+	retLEWhen(c, avail, 0, "$r.conn.n", "$r.conn != nil")
 	c.Reject(take, Stores("http2.outflow.n"), "$0 > available($r)")
 	c.Has(take, StoreAs("$r.n = ($r.n-$0)"))
 	c.Guard(take, StoreAs("$r.conn.n = ($r.conn.n-$0)"), "$r.conn != nil")
@@ -95,7 +94,10 @@ func c08(c *Ctx) {
 	c.Callers(shift, rnd+"Pop", rr+"Pop", p92+"Pop", consume)
 	c.Has(consume, Calls(Consume).ArgIs(0, "*peek($r)"))
 	// the control queue (drained by shift, without Consume) never receives a DATA-carrying request
-	c.Reject(rr+"Push", Calls(push), "!isControl($0)", "$r.streams[StreamID($0)] == nil", "DataSize($0) > 0")
+	// StreamID() reduces to stream.id for a non-control request (stream != nil): both spellings are the same lookup.
+	c.Any(
+		func() { c.Reject(rr+"Push", Calls(push), "!isControl($0)", "$r.streams[StreamID($0)] == nil", "DataSize($0) > 0") },
+		func() { c.Reject(rr+"Push", Calls(push), "!isControl($0)", "$r.streams[$0.stream.id] == nil", "DataSize($0) > 0") })
 	c.Reject(p92+"Push", Calls(push), "!isControl($0)", "$r.streams[StreamID($0)].location == nil", "DataSize($0) > 0")
 	c.Reject(p75+"Push", Calls(push), "!isControl($0)", "$r.nodes[StreamID($0)] == nil", "DataSize($0) > 0")
 	c.Guard(rnd+"Push", Calls(push).ArgIs(0, "&$r.zero"), "isControl($0)")
@@ -151,6 +153,37 @@ func c08(c *Ctx) {
 }
 
 // retLE: every return's idx-th result is provably <= bound.
+// retLEWhen: every value returned on a path consistent with the assumption is provably <= bound.
+func retLEWhen(c *Ctx, fnName string, idx int, bound, assume string) {
+	rule := "clamped-by"
+	construct := fmt.Sprintf("%s: result %d <= %s when %s", fnName, idx, bound, assume)
+	fn := c.MustFn(fnName)
+	if fn == nil {
+		return
+	}
+	n := 0
+	for _, in := range Returns().F(c.P, fn) {
+		r := in.(*ssa.Return)
+		if idx >= len(r.Results) {
+			continue
+		}
+		ok, vac := c.P.ValueLEWhen(r.Results[idx], in, bound, assume)
+		if vac {
+			continue
+		}
+		n++
+		if !ok {
+			c.Fail(rule, construct, InstrPos(in), "returned value `"+Term(r.Results[idx])+"` is not provably bounded by "+bound+" on the paths where "+assume)
+			return
+		}
+	}
+	if n == 0 {
+		c.Undecided(rule, construct, "no return consistent with the assumption")
+		return
+	}
+	c.OK(rule, construct, fmt.Sprintf("%d return(s)", n))
+}
+
 func retLE(c *Ctx, fnName string, idx int, bound string) {
 	rule := "clamped-by"
 	construct := fmt.Sprintf("%s: result %d <= %s", fnName, idx, bound)
@@ -192,7 +225,7 @@ func startFrameWriteArgs(c *Ctx, caller, callee string) {
 	}
 	nPop := 0
 	for _, in := range sites {
-		arg := in.(*ssa.Call).Call.Args[1]
+		arg := BaselineArgs(&in.(*ssa.Call).Call)[1]
 		construct := fmt.Sprintf("%s: %s(%s)", caller, "startFrameWrite", Term(arg))
 		if ex, ok := arg.(*ssa.Extract); ok {
 			if call, ok := ex.Tuple.(*ssa.Call); ok && call.Call.IsInvoke() && call.Call.Method.Name() == "Pop" && ex.Index == 0 {
@@ -363,7 +396,7 @@ func consumeSplitFlow(c *Ctx, name string) {
 		}
 	}
 	good := len(heads) == 1 && len(tails) == 1 && len(takes) == 1 &&
-		Term(heads[0].High) == Term(takes[0].Call.Args[1]) && Term(tails[0].Low) == Term(takes[0].Call.Args[1])
+		Term(heads[0].High) == Term(BaselineArgs(&takes[0].Call)[1]) && Term(tails[0].Low) == Term(BaselineArgs(&takes[0].Call)[1])
 	c.Check(good, rule, name+": released length equals taken amount", ret.Pos(),
 		"p[:k] released, p[k:] kept, take(k)", fmt.Sprintf("on the split path %d head slice(s), %d tail slice(s), %d take(s), or their index terms differ", len(heads), len(tails), len(takes)))
 }
